@@ -23,15 +23,16 @@ enum Host { V4(u32), V6(u128), Svc(u16) }
 #[derive(Clone, Copy, PartialEq, Eq, Debug, Hash)]
 enum Val { Num(u64), Host(Host), Addr(u64, Host), Sock(u64, Host, u16) }
 #[derive(Clone, PartialEq, Eq, Debug)]
-enum Res { Ok(Val, Option<String>), Err(u64), Panic }
+enum Res { Ok(Val, Option<String>), OkList(Vec<(u64, Host)>), Err(u64), Panic }
 
 const K_ISD: u64 = 0; const K_ASN: u64 = 1; const K_IA: u64 = 2; const K_SVC: u64 = 3; const K_HOST: u64 = 4;
 const K_ADDR_SVC: u64 = 5; const K_ADDR_V4: u64 = 6; const K_ADDR_V6: u64 = 7; const K_ADDR: u64 = 8; const K_IPADDR: u64 = 9;
 const K_SOCK_SVC: u64 = 10; const K_SOCK_V4: u64 = 11; const K_SOCK_V6: u64 = 12; const K_SOCK: u64 = 13; const K_IPSOCK: u64 = 14;
-const N_KINDS: u64 = 15;
-const KIND_NAMES: [&str; 15] = ["Isd", "Asn", "IsdAsn", "ServiceAddr", "ScionHostAddr", "ScionAddrSvc", "ScionAddrV4",
+const K_TXT: u64 = 15;
+const N_KINDS: u64 = 15; // FromStr types; K_TXT is generated separately
+const KIND_NAMES: [&str; 16] = ["Isd", "Asn", "IsdAsn", "ServiceAddr", "ScionHostAddr", "ScionAddrSvc", "ScionAddrV4",
     "ScionAddrV6", "ScionAddr", "ScionIpAddr", "ScionSocketAddrSvc", "ScionSocketAddrV4", "ScionSocketAddrV6",
-    "ScionSocketAddr", "ScionSocketIpAddr"];
+    "ScionSocketAddr", "ScionSocketIpAddr", "TxtRecord"];
 
 fn ecode(e: &E) -> u64 {
     match e {
@@ -78,6 +79,19 @@ fn parse_impl(kind: u64, s: &str) -> Res {
     });
     match r { None => Res::Panic, Some(Ok((v, d))) => Res::Ok(v, Some(d)), Some(Err(c)) => Res::Err(c) }
 }
+
+/// the TXT record parser through the verif-hooks entry point
+fn parse_txt_impl(s: &str) -> Res {
+    let s2 = s.to_string();
+    let r = catch(move || scion_stack::resolver::txt::verif_hooks::parse_txt_record(&s2));
+    match r {
+        None => Res::Panic,
+        Some(None) => Res::Err(30),
+        Some(Some(Err(c))) => Res::Err(30 + c as u64),
+        Some(Some(Ok(v))) => Res::OkList(v.into_iter().map(|a| { let a = a.into_scion_addr(); (a.isd_asn().to_u64(), host_of(a.host())) }).collect()),
+    }
+}
+fn coq_pairs(l: &[(u64, Host)]) -> String { coq_list(l.iter().map(|(ia, h)| format!("({ia},{})", coq_host(*h)))) }
 
 /// Display of a value through the type `kind`; None when the kind cannot hold the value or on panic
 fn display_impl(kind: u64, v: Val) -> Option<String> {
@@ -136,32 +150,35 @@ fn ip_display(h: Host) -> Option<(Host, String)> {
     match h { Host::V4(a) => Some((h, Ipv4Addr::from_bits(a).to_string())), Host::V6(a) => Some((h, Ipv6Addr::from_bits(a).to_string())), Host::Svc(_) => None }
 }
 
-struct Case { kind: u64, input: String, val: Option<Val>, class: &'static str }
+struct Case { kind: u64, input: String, val: Option<Val>, class: &'static str, list: Option<Vec<(u64, Host)>> }
 
 fn emit(c: &Case, sh: &mut Shards, sum: &mut Summary, seen: &mut std::collections::HashSet<String>) {
-    let res = parse_impl(c.kind, &c.input);
+    let res = if c.kind == K_TXT { parse_txt_impl(&c.input) } else { parse_impl(c.kind, &c.input) };
     let tbl = ip_table(&c.input);
     let mut disp: Vec<(Host, String)> = vec![];
     let mut add = |h: Option<Host>| { if let Some(x) = h.and_then(ip_display) { if !disp.contains(&x) { disp.push(x); } } };
     add(c.val.and_then(val_host));
     if let Res::Ok(v, _) = &res { add(val_host(*v)); }
+    if let Res::OkList(l) = &res { for (_, h) in l { add(Some(*h)); } }
+    if let Some(l) = &c.list { for (_, h) in l { add(Some(*h)); } }
     for (_, h) in &tbl { add(Some(*h)); }
     let (rs, show, rh) = match &res {
         Res::Ok(v, d) => (format!("(ROk {})", coq_val(*v)), coq_opt(d.as_ref().map(|d| coq_bytes(d.as_bytes()))), format!("Ok {:?}", v)),
+        Res::OkList(l) => (format!("(ROk (VList {}))", coq_pairs(l)), "None".to_string(), format!("Ok {:?}", l)),
         Res::Err(c) => (format!("(RErr {c})"), "None".to_string(), format!("Err {c}")),
         Res::Panic => ("RPanic".to_string(), "None".to_string(), "PANIC".to_string()),
     };
     let case = format!("mkT {} {} {} {} {} {} {}", c.kind, coq_bytes(c.input.as_bytes()),
         coq_list(tbl.iter().map(|(t, h)| format!("({},{})", coq_bytes(t.as_bytes()), coq_host(*h)))),
         rs, coq_list(disp.iter().map(|(h, d)| format!("({},{})", coq_host(*h), coq_bytes(d.as_bytes())))),
-        show, coq_opt(c.val.map(coq_val)));
+        show, match &c.list { Some(l) => format!("(Some (VList {}))", coq_pairs(l)), None => coq_opt(c.val.map(coq_val)) });
     sum.count(&format!("kind.{}", KIND_NAMES[c.kind as usize]));
     sum.count(&format!("class.{}", c.class));
-    sum.count(match &res { Res::Ok(..) => "result.ok", Res::Err(_) => "result.err", Res::Panic => "result.panic" });
+    sum.count(match &res { Res::Ok(..) | Res::OkList(..) => "result.ok", Res::Err(_) => "result.err", Res::Panic => "result.panic" });
     sum.count(&format!("len.{}", match c.input.len() { 0 => "0", 1..=3 => "1-3", 4..=15 => "4-15", 16..=40 => "16-40", _ => "41+" }));
     if !c.input.is_ascii() { sum.count("non_ascii"); }
     let human = format!("{} {} {:?}{} -> {}", c.class, KIND_NAMES[c.kind as usize], c.input,
-        c.val.map(|v| format!(" (display of {:?})", v)).unwrap_or_default(), rh);
+        c.val.map(|v| format!(" (display of {:?})", v)).or(c.list.as_ref().map(|l| format!(" (canonical record of {:?})", l))).unwrap_or_default(), rh);
     if seen.insert(format!("{}|{}", c.kind, c.input)) && !c.input.is_empty() { sum.count("distinct_nontrivial"); }
     if sum.samples.len() < 3 && c.class != "directed" { sum.samples.push(human.clone()); }
     sum.index.push(human);
@@ -287,6 +304,57 @@ fn overflow_variant(r: &mut Rng, kind: u64, v: Val) -> String {
     format!("{}{}{}", &s[..a], big, &s[b..])
 }
 
+// ---------- TXT records ----------
+const WS: [&str; 8] = [" ", "\t", "\n", "\r", "\u{a0}", "\u{3000}", "\u{2028}", "\u{85}"];
+fn ws(r: &mut Rng) -> String { match r.below(6) { 0 => r.pick(&WS).to_string(), 1 => format!("{}{}", r.pick(&WS), r.pick(&WS)), _ => String::new() } }
+fn gen_txt_list(r: &mut Rng) -> Vec<(u64, Host)> {
+    (0..1 + r.below(3)).map(|_| { let w = 1 + r.below(2); (gen_ia(r), gen_host(r, w)) }).collect()
+}
+fn txt_canonical(l: &[(u64, Host)]) -> String {
+    format!("scion=v1;{}", l.iter().map(|(ia, h)| format!("[{},{}]", IsdAsn(*ia), to_host(*h))).collect::<Vec<_>>().join(","))
+}
+fn txt_spelled(r: &mut Rng, l: &[(u64, Host)]) -> String {
+    let mut s = String::from("scion=v1;"); s += &ws(r);
+    for (i, (ia, h)) in l.iter().enumerate() {
+        if i > 0 { s += &ws(r); s.push(','); s += &ws(r); }
+        s.push('['); s += &ws(r); s += &sp_ia(r, *ia); s += &ws(r); s.push(','); s += &ws(r); s += &sp_host(r, *h); s += &ws(r); s.push(']');
+    }
+    s + &ws(r)
+}
+fn gen_txt_cases(r: &mut Rng, n: usize, thorough: bool, cases: &mut Vec<Case>) {
+    let t = |s: &str, class: &'static str| Case { kind: K_TXT, input: s.to_string(), val: None, class, list: None };
+    for s in ["scion=v1;[19-ff00:0:110,192.0.2.1]", "scion=v1;[19-ff00:0:110,192.0.2.1],[19-ff00:0:111,2001:db8::1]",
+              "scion=v1;[19-ff00:0:110,192.0.2.1] , [19-ff00:0:111,2001:db8::1]", "scion=v1;[19-ff00:0:110,192.0.2.1],",
+              "scion=v1;[19-ff00:0:110,192.0.2.1], ", "scion=v1;[19-ff00:0:110,192.0.2.1],,", "scion=v1;,[19-ff00:0:110,192.0.2.1]",
+              "scion=v1;", "scion=v1; ", "scion=v1;[", "scion=v1;]", "scion=v1;[]", "scion=v1;[,]", "scion=v1;[1-1,1.1.1.1", "scion=v1;1-1,1.1.1.1]",
+              "scion=v1;[1-1,1.1.1.1][1-1,1.1.1.1]", "scion=v1;[[1-1,1.1.1.1]]", "scion=v1;[1-1,1.1.1.1]]", "scion=v1;[1-1,CS]", "scion=v1;[1-1,1.1.1.1]x",
+              "scion=v1;x[1-1,1.1.1.1]", "scion=v1;[1-1;1.1.1.1]", "scion=v1;[1-1,1.1.1.1,2.2.2.2]", "scion=v2;[1-1,1.1.1.1]", "SCION=v1;[1-1,1.1.1.1]",
+              " scion=v1;[1-1,1.1.1.1]", "scion=v1[1-1,1.1.1.1]", "", "scion=v1;[\u{a0}1-1\u{3000},\u{2028}1.1.1.1\u{85}]\u{a0}", "scion=v1;[é1-1,1.1.1.1]",
+              "scion=v1;[1-1,1.1.1.1]é", "scion=v1;é", "scion=v1;[é", "scion=v1;[1-1,1.1.1.1],é", "scion=v1;[1 -1,1.1.1.1]", "scion=v1;[1-1,1.1. 1.1]",
+              "scion=v1;[1-1,::ffff:1.2.3.4]", "scion=v1;[1-1,[::1]]", "scion=v1;[1-1,::1%eth0]", "scion=v1;[+1-+1,1.1.1.1]", "scion=v1;[1-0:0:1,1.1.1.1]"] {
+        cases.push(t(s, "directed"));
+    }
+    // every payload of length 0..3 over a 9-symbol alphabet
+    let alpha = ["[", "]", ",", "1", "-", ".", ":", "x", " "];
+    let mut small: Vec<String> = vec![String::new()];
+    for a in alpha { small.push(a.to_string()); for b in alpha { small.push(format!("{a}{b}")); for c in alpha { small.push(format!("{a}{b}{c}")); } } }
+    for (i, p) in small.iter().enumerate() { if thorough || i % 4 == 0 { cases.push(t(&format!("scion=v1;{p}"), "small")); } }
+    let mut made = 0;
+    while made < n {
+        made += 1;
+        let l = gen_txt_list(r);
+        match r.below(10) {
+            0 | 1 | 2 => cases.push(Case { kind: K_TXT, input: txt_canonical(&l), val: None, class: "value", list: Some(l) }),
+            3 | 4 | 5 => cases.push(t(&txt_spelled(r, &l), "grammar")),
+            6 | 7 => { let b = if r.chance(1, 2) { txt_canonical(&l) } else { txt_spelled(r, &l) }; cases.push(t(&mutate(r, &b), "mutation")); }
+            8 => { let b = txt_canonical(&l); let v = match r.below(6) { 0 => format!("{b},"), 1 => b.replacen("],[", "][", 1), 2 => b.replacen('[', "", 1),
+                       3 => b.replacen(']', "", 1), 4 => b.replacen("scion=v1;", *r.pick(&["scion=v1; ", "scion=v1", "scion=v2;", "scion = v1;", ""]), 1), _ => format!("{b} , ") };
+                   cases.push(t(&v, "bracket")); }
+            _ => { let k2 = r.below(N_KINDS); let v2 = gen_val(r, k2); let x = sp_val(r, k2, v2); cases.push(t(&format!("scion=v1;[{x}]"), "cross")); }
+        }
+    }
+}
+
 fn main() {
     silence_panics();
     let out = arg("--out").expect("--out dir");
@@ -305,7 +373,7 @@ fn main() {
         for s in [":80", "x1-ff00:0:110,10.0.0.1y:1000", "é1-ff00:0:110,10.0.0.1]:1000", "1-ff00:0:110,10.0.0.1]:1000",
                   "[1-ff00:0:110,10.0.0.1:1000", "]:80", "[:80", "[]:80", "é:80", "x:80", "1-ff00:0:110,CS:80", "x1-1,::1y:1",
                   "[1-ff00:0:110,10.0.0.1]:1000", "[1-ff00:0:110,::1]:1000", "[1-ff00:0:110,CS]:1000", "😀1-1,CSé:1"] {
-            cases.push(Case { kind: k, input: s.to_string(), val: None, class: "directed" });
+            cases.push(Case { kind: k, input: s.to_string(), val: None, class: "directed", list: None });
         }
     }
     for (k, s) in [(K_SVC, "<SVC:0x0003>"), (K_SVC, "CS_A"), (K_SVC, "CS_"), (K_SVC, "CS_M_M"), (K_SVC, "Wildcard_M"), (K_ASN, "0:0:1"),
@@ -313,18 +381,18 @@ fn main() {
                    (K_IA, "1-2-3"), (K_IA, "-"), (K_IA, "1-"), (K_IA, "-1"), (K_IA, "65536-1"), (K_IA, "1–1"), (K_ISD, "+"), (K_ISD, "-0"),
                    (K_HOST, "CS"), (K_HOST, "1.2.3.4"), (K_HOST, "::"), (K_HOST, "01.2.3.4"), (K_ADDR, "1-1,"), (K_ADDR, ",CS"), (K_ADDR, "1-1,CS,"),
                    (K_ADDR, "1-1,CS,CS"), (K_ADDR, " 1-1,CS"), (K_ADDR, "1-1, CS"), (K_IPADDR, "1-1,CS")] {
-        cases.push(Case { kind: k, input: s.to_string(), val: None, class: "directed" });
+        cases.push(Case { kind: k, input: s.to_string(), val: None, class: "directed", list: None });
     }
     // display of every boundary service address / AS number
-    for s in [0u64, 1, 2, 3, 0x10, 0x11, 0x7fff, 0x8000, 0x8001, 0x8002, 0x8010, 0xffff] { cases.push(Case { kind: K_SVC, input: String::new(), val: Some(Val::Num(s)), class: "value" }); }
-    for a in [0u64, 1, 0xffff_ffff, 0x1_0000_0000, 0xffff_ffff_ffff, 0xff00_0000_0110] { cases.push(Case { kind: K_ASN, input: String::new(), val: Some(Val::Num(a)), class: "value" }); }
+    for s in [0u64, 1, 2, 3, 0x10, 0x11, 0x7fff, 0x8000, 0x8001, 0x8002, 0x8010, 0xffff] { cases.push(Case { kind: K_SVC, input: String::new(), val: Some(Val::Num(s)), class: "value", list: None }); }
+    for a in [0u64, 1, 0xffff_ffff, 0x1_0000_0000, 0xffff_ffff_ffff, 0xff00_0000_0110] { cases.push(Case { kind: K_ASN, input: String::new(), val: Some(Val::Num(a)), class: "value", list: None }); }
 
     // 2. every string of length 0..3 over the 10-symbol alphabet
     let mut small: Vec<String> = vec![String::new()];
     for a in ALPHA { small.push(a.to_string()); for b in ALPHA { small.push(format!("{a}{b}")); for c in ALPHA { small.push(format!("{a}{b}{c}")); } } }
     let small_kinds: Vec<u64> = if thorough { (0..N_KINDS).collect() } else { vec![K_SOCK] };
-    for k in &small_kinds { for s in &small { cases.push(Case { kind: *k, input: s.clone(), val: None, class: "small" }); } }
-    if !thorough { for (i, s) in small.iter().enumerate() { if i % 3 == 0 { cases.push(Case { kind: (i as u64 / 3) % N_KINDS, input: s.clone(), val: None, class: "small" }); } } }
+    for k in &small_kinds { for s in &small { cases.push(Case { kind: *k, input: s.clone(), val: None, class: "small", list: None }); } }
+    if !thorough { for (i, s) in small.iter().enumerate() { if i % 3 == 0 { cases.push(Case { kind: (i as u64 / 3) % N_KINDS, input: s.clone(), val: None, class: "small", list: None }); } } }
 
     // 3. random stream
     let mut i = 0u64;
@@ -332,23 +400,25 @@ fn main() {
         let kind = i % N_KINDS; i += 1;
         let v = gen_val(&mut rng, kind);
         let c = match rng.below(10) {
-            0 | 1 | 2 => Case { kind, input: String::new(), val: Some(v), class: "value" },
-            3 | 4 => Case { kind, input: sp_val(&mut rng, kind, v), val: None, class: "grammar" },
+            0 | 1 | 2 => Case { kind, input: String::new(), val: Some(v), class: "value", list: None },
+            3 | 4 => Case { kind, input: sp_val(&mut rng, kind, v), val: None, class: "grammar", list: None },
             5 | 6 => { let base = if rng.chance(1, 2) { sp_val(&mut rng, kind, v) } else { display_impl(kind, v).unwrap_or_default() };
-                       Case { kind, input: mutate(&mut rng, &base), val: None, class: "mutation" } }
+                       Case { kind, input: mutate(&mut rng, &base), val: None, class: "mutation", list: None } }
             7 => { let sock = rng.chance(2, 3);
                    let k = if sock { K_SOCK } else { kind };
                    let vv = if sock { gen_val(&mut rng, K_SOCK) } else { v };
                    let base = sp_val(&mut rng, k, vv);
                    let tk = if rng.chance(1, 2) { K_SOCK } else { kind };
-                   Case { kind: tk, input: bracket_variant(&mut rng, &base), val: None, class: "bracket" } }
-            8 => Case { kind, input: overflow_variant(&mut rng, kind, v), val: None, class: "overflow" },
+                   Case { kind: tk, input: bracket_variant(&mut rng, &base), val: None, class: "bracket", list: None } }
+            8 => Case { kind, input: overflow_variant(&mut rng, kind, v), val: None, class: "overflow", list: None },
             _ => { // a valid form of another kind fed to this kind
                    let k2 = rng.below(N_KINDS); let v2 = gen_val(&mut rng, k2);
-                   Case { kind, input: sp_val(&mut rng, k2, v2), val: None, class: "cross" } }
+                   Case { kind, input: sp_val(&mut rng, k2, v2), val: None, class: "cross", list: None } }
         };
         cases.push(c);
     }
+    let n_txt = n / 5;
+    gen_txt_cases(&mut rng, n_txt, thorough, &mut cases);
     for mut c in cases {
         if let Some(v) = c.val {
             match display_impl(c.kind, v) {
